@@ -59,9 +59,17 @@ def jail_tree():
     t['hgself'] = D({'.hg': D({}), '.hgignore': F(data='syntax: glob\n*.o\nsubinclude:/work/hgself/.hgignore\nsubinclude:/work/hgself/.hgignore\n'), 'a.o': F(1), 'b.c': F(2)})
     t['hgpair'] = D({'.hg': D({}), '.hgignore': F(data='subinclude:/work/hgpair/other\nsubinclude:other\n\\.o$\n'),
                      'other': F(data='subinclude:/work/hgpair/.hgignore\nsubinclude:.hgignore\n'), 'a.o': F(1)})
+    # an include that names a pipe or a device (reading never ends), a chain of includes thousands of files long
+    x = {}
+    x['hgpipe'] = D({'.hg': D({}), '.hgignore': F(data='syntax: glob\n*.o\nsubinclude:/hgx/hgpipe/fifo\n'), 'fifo': {'t': 'p'}, 'a.o': F(1), 'b.c': F(1)})
+    x['hgzero'] = D({'.hg': D({}), '.hgignore': F(data='subinclude:/dev/zero\n\\.o$\n'), 'a.o': F(1)})
+    chain = {'.hg': D({}), '.hgignore': F(data='subinclude:/hgx/hgchain/i0000\n'), 'a.o': F(1)}
+    for i in range(3000):
+        chain['i%04d' % i] = F(data=('subinclude:/hgx/hgchain/i%04d\n' % (i + 1)) if i < 2999 else '\\.o$\n')
+    x['hgchain'] = D(chain)
     # an include that names a directory (it can be opened, every read fails)
     t['hgdir'] = D({'.hg': D({}), '.hgignore': F(data='syntax: glob\n*.o\nsubinclude:/work/hgdir/sub\n*.c\n'), 'sub': D({'x.o': F(1)}), 'a.o': F(1), 'b.c': F(2), 'k': F(3)})
-    return {'work': D(t)}
+    return {'work': D(t), 'hgx': D(x)}
 
 
 # ------------------------------------------------------------------ labelled malformations
@@ -168,8 +176,18 @@ def labelled():
                    'name from . where size > ' + nest('1', '+', levels, 998), 'name from . order by ' + nest('size', '+', levels, 998) + ' limit 1'):
             out.append(([qy], 'long-input', None))
     for qy in ('name from /work/hgself hgignore', 'name from /work/hgpair hgignore', 'name from /work/hgself hgignore, /work/hgpair hgignore', 'count(*) from /work hgignore',
-               'name from /work/hgdir hgignore', 'name from /work/hgdir/sub hgignore'):
+               'name from /work/hgdir hgignore', 'name from /work/hgdir/sub hgignore', 'name from /hgx/hgpipe hgignore', 'name from /hgx/hgzero hgignore',
+               'name from /hgx/hgchain hgignore where name = a.o'):
         out.append(([qy], 'ignore-file-cycle', None))
+    # a value that doubles with every level of nesting: an answer (a refusal) in time, not a process that dies of it
+    grow = "'x'"
+    for _ in range(9):
+        grow = "replace(%s, '', '%s')" % (grow, 'y' * 60)
+    out.append((['name, length(%s) from . limit 1' % grow], 'value-growth', None))
+    grow = 'name'
+    for _ in range(8):
+        grow = "replace(%s, 'a', '%s')" % (grow, 'a' * 90)
+    out.append((['name, length(%s) from . limit 3' % grow], 'value-growth', None))
     # numbers at the edge of the machine types inside expressions and aggregates
     for qy in ('sum(size * 0 + 10000000000000000000) from .', 'avg(size * 0 + 10000000000000000000), var_pop(size * 0 + 1e308) from .',
                '-rand(-9223372036854775808, -9223372036854775807) from . limit 1', 'name, -(0 - 9223372036854775808) from . limit 1',
